@@ -370,6 +370,8 @@ pub fn evaluate_ast(
             }
 
             if ident == "constants"
+                || ident == "infinity"
+                || ident == "inf"
                 || ident == "if"
                 || ident == "then"
                 || ident == "else"
